@@ -25,6 +25,8 @@ void vrt_perturb_target(int target) { g_pt_target = target; }
 static volatile uintptr_t g_role_lo, g_role_hi;
 static volatile int       g_role_us, g_role_permille;
 static __thread int       t_role_known, t_role_match;
+static volatile int g_role_where; /* 0: after each semaphore wait (task receipt); 1: after each semaphore post (right after a hand-over became visible) */
+void vrt_perturb_role_where(int where) { g_role_where = where; }
 void vrt_perturb_role(uintptr_t lo, uintptr_t hi, int permille, int usleep_us) {
     g_role_lo = lo, g_role_hi = hi, g_role_permille = permille, g_role_us = usleep_us;
 }
@@ -99,13 +101,16 @@ EbErr __wrap_svt_release_mutex(EbHandle h) {
 EbErr __wrap_svt_block_on_semaphore(EbHandle h) {
     sched_point();
     EbErr r = __real_svt_block_on_semaphore(h);
-    role_point();
+    if (g_role_where == 0)
+        role_point();
     return r;
 }
 EbErr __wrap_svt_post_semaphore(EbHandle h) {
     sched_point();
     EbErr r = __real_svt_post_semaphore(h);
     sched_point();
+    if (g_role_where == 1)
+        role_point();
     return r;
 }
 
